@@ -193,6 +193,15 @@ def gen_inputs(tier, rng):
         b["hist"] = [list(STD), list(STD)] if i % 4 < 2 else [["QCrm", "QCurv", "QRec"], ["QCrm"], ["QCurv", "QCrm", "QLdc"]]
         gen_env(rng, b, plain=0.3)
         yield b
+    # directed: the formalism chosen by the factory differs between the inversion with preloads (Preloads(use_w_tilde=False): mapping
+    # class) and the one without (w-tilde class), with function columns / data of tiny or huge magnitude next to ordinary mappers
+    for i in range(24 if big else 3):
+        b = gen_base(rng, ["mff", "fm", "mf", "fmf", "mfm"][i % 5])
+        b["op"] = "hist"; b["use_w_tilde"] = True; b["pre_use_wt"] = False
+        b["slots"] = [s for s in SLOTS if rng.random() < 0.3]
+        b["hist"] = [list(STD)] if i % 2 == 0 else gen_hist(rng)
+        b["sc"] = [[-30, -27, 0], [0, -27, 0], [20, 10, -3], [0, -27, 5]][i % 4]
+        yield b
     # twins: two datasets sharing the mask, the linear OBJECTS (and possibly the settings object), inversions interleaved
     for i in range(40 if big else 4):
         b = gen_base(rng, ["mf", "m", "mm", "fm", "mfm", "mff"][i % 6])
